@@ -221,9 +221,51 @@ func (w *qWorld) expected() map[string]qTotals {
 	return out
 }
 
-func qSemantic(q *v2.Queue) string {
+// qView is what a queue's status says, at three strengths of equality.
+type qView struct {
+	sums     string // exact values of the three resource lists
+	childSet string // sorted child names
+	childSeq string // child names in stored order
+	bytes    string // the whole object without resourceVersion
+}
+
+func viewOf(q *v2.Queue) qView {
 	ch := append([]string(nil), q.Status.ChildQueues...)
-	return rlOf(q.Status.Requested).String() + rlOf(q.Status.Allocated).String() + rlOf(q.Status.AllocatedNonPreemptible).String() + strings.Join(ch, ",")
+	seq := strings.Join(ch, ",")
+	sort.Strings(ch)
+	return qView{sums: rlOf(q.Status.Requested).String() + rlOf(q.Status.Allocated).String() + rlOf(q.Status.AllocatedNonPreemptible).String(),
+		childSet: strings.Join(ch, ","), childSeq: seq, bytes: canon(q)}
+}
+
+// classify names the strongest kind of change between two snapshots: "" none, or a sig suffix.
+func classify(a, b map[string]qView) (string, []string) {
+	rank, suffix := 0, ""
+	var changed []string
+	for n, x := range a {
+		y, ok := b[n]
+		if !ok {
+			continue
+		}
+		switch {
+		case x.sums != y.sums || x.childSet != y.childSet:
+			if rank < 3 {
+				rank, suffix = 3, "values"
+			}
+			changed = append(changed, fmt.Sprintf("%s: %s children[%s] -> %s children[%s]", n, x.sums, x.childSeq, y.sums, y.childSeq))
+		case x.childSeq != y.childSeq:
+			if rank < 2 {
+				rank, suffix = 2, "childQueues-order"
+			}
+			changed = append(changed, fmt.Sprintf("%s: childQueues [%s] -> [%s]", n, x.childSeq, y.childSeq))
+		case x.bytes != y.bytes:
+			if rank < 1 {
+				rank, suffix = 1, "quantity-format-only"
+			}
+			changed = append(changed, fmt.Sprintf("%s: %s -> %s", n, x.bytes, y.bytes))
+		}
+	}
+	sort.Strings(changed)
+	return suffix, changed
 }
 
 // ---------------------------------------------------------------- the case
@@ -306,7 +348,7 @@ func runQueueCase(seed int64, index int, tier string, env *run.Env) run.CaseResu
 
 	// ---- store + real reconciler (indexes exactly as SetupWithManager registers them)
 	scheme := store.Scheme()
-	raw := crfake.NewClientBuilder().WithScheme(scheme).WithStatusSubresource(&v2.Queue{}, &v2alpha2.PodGroup{}).
+	raw := crfake.NewClientBuilder().WithScheme(scheme).WithObjectTracker(newTracker(scheme)).WithStatusSubresource(&v2.Queue{}, &v2alpha2.PodGroup{}).
 		WithIndex(&v2.Queue{}, qcommon.ParentQueueIndexName, qc.VerifIndexQueueByParent).
 		WithIndex(&v2alpha2.PodGroup{}, qcommon.PodGroupQueueIndexName, qc.VerifIndexPodGroupByQueue).Build()
 	createQ := func(q *v2.Queue) error {
@@ -345,7 +387,8 @@ func runQueueCase(seed int64, index int, tier string, env *run.Env) run.CaseResu
 	rec := qc.NewQueueReconcilerForVerif(interceptor.NewClient(raw, mon.funcs()), scheme)
 
 	// one pass = every queue reconciled once (sometimes twice, sometimes a deleted name too) in a PRNG order
-	pass := func(w *qWorld) (writes int, log []string, err error) {
+	rank := map[string]int{"": 0, "quantity-format-only": 1, "childQueues-order": 2, "values": 3}
+	pass := func(w *qWorld) (writes int, log []string, class string, changed []string, err error) {
 		order := w.names()
 		if r.p(0.3) && len(order) > 0 {
 			order = append(order, order[r.IntN(len(order))])
@@ -355,27 +398,40 @@ func runQueueCase(seed int64, index int, tier string, env *run.Env) run.CaseResu
 		}
 		r.Shuffle(len(order), func(i, j int) { order[i], order[j] = order[j], order[i] })
 		for _, n := range order {
+			before := &v2.Queue{}
+			hadBefore := raw.Get(ctx, types.NamespacedName{Name: n}, before) == nil
 			mon.reset()
 			_, e := rec.Reconcile(ctx, ctrl.Request{NamespacedName: types.NamespacedName{Name: n}})
 			cnt.inc("reconciles")
 			cnt.add("mutating_calls", mon.Mutating)
-			cnt.add("noop_patch_requests", mon.Noop)
+			cnt.add("noop_write_requests", mon.Noop)
+			cnt.add("queue_noop_write_requests", mon.Noop)
+			cnt.add("queue_mutating_calls", mon.Mutating)
 			writes += mon.Mutating
 			log = append(log, mon.Log...)
 			if e != nil {
-				return writes, log, fmt.Errorf("queue %s: %w", n, e)
+				return writes, log, class, changed, fmt.Errorf("queue %s: %w", n, e)
+			}
+			if mon.Mutating > 0 && hadBefore {
+				after := &v2.Queue{}
+				if raw.Get(ctx, types.NamespacedName{Name: n}, after) == nil {
+					c, ch := classify(map[string]qView{n: viewOf(before)}, map[string]qView{n: viewOf(after)})
+					if rank[c] > rank[class] {
+						class = c
+					}
+					changed = append(changed, ch...)
+				}
 			}
 		}
 		cnt.inc("passes")
-		return writes, log, nil
+		return writes, log, class, changed, nil
 	}
-	snapshot := func(w *qWorld) (bytes, sem map[string]string) {
-		bytes, sem = map[string]string{}, map[string]string{}
+	snapshot := func(w *qWorld) map[string]qView {
+		out := map[string]qView{}
 		for n, q := range w.queues {
-			bytes[n] = mustJSON(q)
-			sem[n] = qSemantic(q)
+			out[n] = viewOf(q)
 		}
-		return
+		return out
 	}
 
 	maxQueues, maxLevels := 0, 0
@@ -395,18 +451,16 @@ func runQueueCase(seed int64, index int, tier string, env *run.Env) run.CaseResu
 		}
 		bound := lv + 2
 		converged := false
-		lastSemChanged := false
-		var lastLog []string
+		lastClass := ""
+		var lastLog, lastChanged []string
 		for p := 1; p <= bound; p++ {
-			_, semBefore := snapshot(w)
-			writes, log, perr := pass(w)
+			writes, log, class, changed, perr := pass(w)
 			if perr != nil {
 				vs.add("queue-reconcile", "queue-reconcile-error:"+firstWords(perr.Error(), 6), "%s: %v", at, perr)
 				return true
 			}
 			w, _ = readQWorld(ctx, raw)
-			_, semAfter := snapshot(w)
-			lastSemChanged = fmt.Sprint(semBefore) != fmt.Sprint(semAfter)
+			lastClass, lastChanged = class, changed
 			lastLog = log
 			if writes == 0 {
 				converged = true
@@ -416,10 +470,11 @@ func runQueueCase(seed int64, index int, tier string, env *run.Env) run.CaseResu
 		}
 		if !converged {
 			sig := "queue-no-convergence"
-			if !lastSemChanged {
-				sig = "queue-no-convergence:quantity-format-only"
+			if lastClass != "values" {
+				sig += ":" + lastClass
 			}
-			vs.add("queue-fixpoint", sig, "%s: %d queues on %d levels still written in pass %d (bound levels+2): %v (shuffled lists=%v)", at, len(w.queues), lv, bound, lastLog, in.Shuffle)
+			vs.add("queue-fixpoint", sig, "%s: %d queues on %d levels still written in pass %d (bound levels+2): %v (shuffled lists=%v); changes of that pass: %s",
+				at, len(w.queues), lv, bound, lastLog, in.Shuffle, strings.Join(lastChanged, " | "))
 		}
 		// sum identity at every level + child sets
 		exp := w.expected()
@@ -450,27 +505,24 @@ func runQueueCase(seed int64, index int, tier string, env *run.Env) run.CaseResu
 			}
 		}
 		// one more pass: nothing may be written, every queue byte-identical
-		bytesBefore, semBefore := snapshot(w)
-		writes, log, perr := pass(w)
+		before := snapshot(w)
+		writes, log, passClass, passChanged, perr := pass(w)
 		cnt.inc("fixpoint_passes")
 		if perr != nil {
 			vs.add("queue-reconcile", "queue-reconcile-error:"+firstWords(perr.Error(), 6), "%s: %v", at, perr)
 			return true
 		}
 		w2, _ := readQWorld(ctx, raw)
-		bytesAfter, semAfter := snapshot(w2)
-		if converged && (writes > 0 || fmt.Sprint(bytesBefore) != fmt.Sprint(bytesAfter)) {
+		class, changed := classify(before, snapshot(w2))
+		if rank[passClass] > rank[class] {
+			class = passClass
+		}
+		changed = append(changed, passChanged...)
+		if converged && (writes > 0 || class != "") {
 			sig := "queue-fixpoint-write"
-			if fmt.Sprint(semBefore) == fmt.Sprint(semAfter) {
-				sig = "queue-fixpoint-write:quantity-format-only"
+			if class != "values" && class != "" {
+				sig += ":" + class
 			}
-			var changed []string
-			for n := range bytesBefore {
-				if bytesBefore[n] != bytesAfter[n] {
-					changed = append(changed, fmt.Sprintf("%s: %s -> %s", n, mustJSON(w.queues[n].Status), mustJSON(w2.queues[n].Status)))
-				}
-			}
-			sort.Strings(changed)
 			vs.add("queue-fixpoint", sig, "%s: after a pass that wrote nothing, one more pass wrote %v (shuffled lists=%v); changed: %s", at, log, in.Shuffle, strings.Join(changed, " | "))
 		}
 		return true
